@@ -81,7 +81,7 @@ RULE = (
     "bounds kind, parent kind); non-trivial = >= 2 children or a primary flag (collections: >= 2 members, or empty)."
 )
 SCOPE = {
-    "quick": {"C": (0, 4, 9), "S": (9, 14), "N4": 60, "RG": 900, "FL": (4, 9, 13), "RF": 500, "AC": 500, "FAM": 160, "FFAM": 80},
+    "quick": {"C": (0, 4, 9), "S": (9, 14), "N4": 240, "RG": 3600, "FL": (4, 9, 13), "RF": 2000, "AC": 2000, "FAM": 640, "FFAM": 320},
     "thorough": {"C": (0, 4, 9), "S": (9, 12, 14), "N4": 1500, "RG": 12000, "FL": (4, 9, 13), "RF": 6000, "AC": 6000, "FAM": 2400, "FFAM": 1200},
 }
 FLOOR = {"quick": 800, "thorough": 5000}
